@@ -16,6 +16,7 @@ def rxTok (t : String) : Option RxEv := do
   | "R", [sid] => some (.rst (← sid.toNat?))
   | "r", [sid, n] => some (.hread (← sid.toNat?) (← n.toNat?))
   | "x", [sid] => some (.hret (← sid.toNat?))
+  | "c", [sid] => some (.hclose (← sid.toNat?))
   | _, _ => none
 
 def rxShow : Rx → String
